@@ -73,7 +73,7 @@ impl LangInterpreter for English {
             "thirty" | "thirtieth" => b.put(b"30"),
             "fourty" | "forty" | "fortieth" | "fourtieth" => b.put(b"40"),
             "fifty" | "fiftieth" => b.put(b"50"),
-            "sixty" | "sixteeth" => b.put(b"60"),
+            "sixty" | "sixtieth" | "sixteeth" => b.put(b"60"),
             "seventy" | "seventieth" => b.put(b"70"),
             "eighty" | "eightieth" => b.put(b"80"),
             "ninety" | "ninetieth" => b.put(b"90"),
